@@ -71,6 +71,12 @@ def scenarios():
     add("syntax_and_errfile_unwritable", {"parseOk": 0, "errFileOpens": 0}, gdl=SYNTAX, errfile="nodir/err.txt")
     add("semantic_error_w_names_error_ids", {"preCompileOk": 0}, gdl=SEMANTIC, opts=["-w3139", "-w3137", "-w3134", "-w3141", "-w3162", "-w139"])
     add("syntax_error_w_names_error_ids", {"parseOk": 0}, gdl=SYNTAX, opts=["-w103", "-w102", "-w139", "-w1113"])
+    # sources, input font and output in three different directories: the error file goes next to the GDL file
+    add("ok_three_dirs", {}, gdldir="src", fontdir="fonts", out="adir/out.ttf")
+    add("ok_three_dirs_bare_errfile", {}, gdldir="src", fontdir="fonts", out="adir/out.ttf", errfile="errs.txt")
+    add("semantic_error_three_dirs", {"preCompileOk": 0}, gdl=SEMANTIC, gdldir="src", fontdir="fonts", out="adir/out.ttf")
+    add("ok_font_elsewhere_dbg", {"dbgFiles": 1, "dbgXml": 1}, fontdir="fonts", opts=["-D"])
+    add("ok_gdl_elsewhere_abs", {}, gdldir="ABS/src2")
     add("semantic_error_dbg", {"preCompileOk": 0, "dbgFiles": 1, "dbgXml": 1}, gdl=SEMANTIC, opts=["-D"])
     return S
 
@@ -109,13 +115,20 @@ def run_scenario(build, work, name, setup, pre_existing_out=None):
         open(os.path.join(d, "in.ttf"), "wb").write(setup.get("font_bytes", font))
         os.symlink("in.ttf", os.path.join(d, "link.ttf"))
         os.link(os.path.join(d, "in.ttf"), os.path.join(d, "hard.ttf"))
-    shutil.copy(common.STDDEF, d)
-    gdlname = setup.get("gdlname", "p.gdl")
+    if "fontdir" in setup:
+        os.makedirs(os.path.join(d, setup["fontdir"]), exist_ok=True)
+        fontname = os.path.join(setup["fontdir"], "in.ttf")
+        open(os.path.join(d, fontname), "wb").write(setup.get("font_bytes", font))
+    gdldir = setup.get("gdldir", "").replace("ABS", d)
+    if gdldir:
+        os.makedirs(os.path.join(d, gdldir), exist_ok=True)
+    shutil.copy(common.STDDEF, os.path.join(d, gdldir))
+    gdlname = setup.get("gdlname", os.path.join(gdldir, "p.gdl"))
     if "gdlname" not in setup:
         if "gdl_bytes" in setup:
-            open(os.path.join(d, "p.gdl"), "wb").write(setup["gdl_bytes"])
+            open(os.path.join(d, gdlname), "wb").write(setup["gdl_bytes"])
         else:
-            open(os.path.join(d, "p.gdl"), "w").write(setup.get("gdl", GOOD))
+            open(os.path.join(d, gdlname), "w").write(setup.get("gdl", GOOD))
     out = setup.get("out", "out.ttf").replace("ABS", d)
     if pre_existing_out is not None and not os.path.isdir(os.path.join(d, out)):
         try:
@@ -138,6 +151,8 @@ def run_scenario(build, work, name, setup, pre_existing_out=None):
     writes = []
     main_pid = None
     errpath = errfile or "gdlerr.txt"
+    if "/" not in errpath:
+        errpath = os.path.join(os.path.dirname(gdlname), errpath)   # a bare name is placed next to the GDL file
     for line in open(log, errors="replace"):
         m = EXEC_RE.match(line)
         if m:
@@ -162,7 +177,7 @@ def run_scenario(build, work, name, setup, pre_existing_out=None):
             elif os.path.normpath(os.path.join(d, path)) == os.path.normpath(os.path.join(d, out)) or (os.path.exists(os.path.join(d, out)) and os.path.exists(os.path.join(d, path)) and os.path.samefile(os.path.join(d, path), os.path.join(d, out))):
                 if ret >= 0:
                     ops.append("truncOut")
-            elif os.path.normpath(path) == os.path.normpath(errpath):
+            elif os.path.normpath(os.path.join(d, path)) == os.path.normpath(os.path.join(d, errpath)):
                 if ret >= 0:
                     ops.append("writeErrFile")
             elif re.search(r"dbg_\w+\.txt$|\.gdx$|dbg_\w+", os.path.basename(path)):
@@ -198,7 +213,7 @@ def run_scenario(build, work, name, setup, pre_existing_out=None):
             # temporary files created by THIS run (per its own system-call trace) that still exist; a snapshot difference of
             # /tmp would also count files of compilations that other checks run at the same time
             "tmp_leaked": sorted(p for (p, fl, ret) in writes if p.startswith("/tmp/gdl") and "O_EXCL" in fl and ret >= 0 and os.path.exists(p)),
-            "out": out, "errpath": errpath,
+            "out": out, "errpath": errpath, "inputs": [os.path.normpath(os.path.relpath(os.path.join(d, x), d)) for x in (gdlname, fontname, os.path.join(gdldir, "stddef.gdh"))],
             "errtext": errtext, "args": args}
 
 
